@@ -250,18 +250,21 @@ def addToU8 (groups : List (W × List Clu)) (us : List Clu) : List (W × List Cl
 
 /-- `_bf_to_np_refine` for `n_largest = k ≥ 0`: the groups to refit (the `k` largest clusters
 exploded into singletons read from the original data and filed under `"uint8"`), or an error -/
-def refineGroups (bfs : List Clu) (k : Nat) (data : List Row) (initialMol : Nat) : Except Err (List (W × List Clu)) :=
+def refineGroups (bfs : List Clu) (k : Nat) (data : List Row) (initialMol : Nat) (srt : Bool := false) :
+    Except Err (List (W × List Clu)) :=
   let groups0 := groupByW (bfs.drop k)
   if k = 0 then .ok groups0
   else
-    match (bfs.take k).mapM (fun c => explode data initialMol c.ids) with
+    -- given a sequence of file paths the rows are read in ascending index order (`srt`)
+    match (bfs.take k).mapM (fun c => explode data initialMol (if srt then c.ids.mergeSort (· ≤ ·) else c.ids)) with
     | none => .error .index
     | some us =>
       -- `dtypes_to_fp["uint8"]` is only created when a singleton is appended
       .ok (if us.flatten.isEmpty then groups0 else addToU8 groups0 us.flatten)
 
 /-- `refine_inplace(X, initial_mol, n_largest)` -/
-def refine (pol : Cfg → Policy) (e : Est) (nLargest : Int) (data : List Row) (initialMol : Nat) : Est × Option Err :=
+def refine (pol : Cfg → Policy) (e : Est) (nLargest : Int) (data : List Row) (initialMol : Nat) (srt : Bool := false) :
+    Est × Option Err :=
   if !e.st.isInit then (e, some .value)
   else
     match delInternal e with
@@ -269,7 +272,7 @@ def refine (pol : Cfg → Policy) (e : Est) (nLargest : Int) (data : List Row) (
     | (e0, none) =>
       if nLargest < 0 then (e0, some .value)
       else
-        match refineGroups e0.st.sortedClus nLargest.toNat data initialMol with
+        match refineGroups e0.st.sortedClus nLargest.toNat data initialMol srt with
         | .error x => (e0, some x)
         | .ok groups => refitGroups pol e0.reset groups
 
@@ -329,7 +332,7 @@ namespace BB
 /-- the operations of a history -/
 inductive Op
   | fit (rows : List Row) (labels : Option (List Nat))
-  | refine (nLargest : Int) (data : List Row) (initialMol : Nat)
+  | refine (nLargest : Int) (data : List Row) (initialMol : Nat) (srt : Bool)
   | recluster (iters : Nat) (extra : Rat) (perms : List (Option (List Nat))) (stopEarly : Bool)
   | setMerge (crit : Option CritArg) (tol thr : Option Rat) (bf : Option Nat)
   | setThr (thr : Rat)
@@ -340,7 +343,7 @@ inductive Op
 /-- one operation under an arbitrary family of policies (one per configuration) -/
 def stepWith (pol : Cfg → Policy) (e : Est) : Op → Est × Option Err
   | .fit rows labels => fit (pol e.cfg) e rows labels
-  | .refine n data im => refine pol e n data im
+  | .refine n data im srt => refine pol e n data im srt
   | .recluster it ex perms se => recluster pol e it ex perms se
   | .setMerge c t th b => setMerge e c t th b
   | .setThr t => ({ e with cfg := { e.cfg with thr := t } }, none)
